@@ -9,6 +9,7 @@ import Driver.C16
 import Driver.C03
 import Driver.C12
 import Driver.C09
+import Driver.C04
 open Driver
 
 /-- dispatch one request line; returns the output lines -/
@@ -30,6 +31,7 @@ def dispatch (line : String) : IO (List String) := do
   | "c03" :: args => cmdC03 args
   | "c12" :: args => cmdC12 args
   | "c09" :: args => cmdC09 args
+  | "c04" :: args => cmdC04 args
   | _ => return ["error unknown-command"]
 
 partial def loop (hin : IO.FS.Stream) (hout : IO.FS.Stream) : IO Unit := do
